@@ -123,7 +123,7 @@ ITEMS = [
     dict(kind="struct", file=EMF, name="EntryWriter"),
     dict(kind="fn", file=EMF, impl=_EW, name="config", label="EntryWriter::config",
          impl_header_override="impl<'a> EntryWriter<'a>", desugar_for=True,
-         attrs=["#[verifier::exec_allows_no_decreases_clause]", "#[verifier::loop_isolation(false)]"],
+         attrs=["#[verifier::exec_allows_no_decreases_clause]"],
          rules={"k1": 1, "k2": 1, "k3": 1, "k4": 1}, pre_rewrites=[k1, k2, k3, k4],
          sig_replace=[("&'a dyn EntryConfig", "&'a dyn EntryConfig")],
          ensures="""
